@@ -168,6 +168,7 @@ func coreScenarios() []*Scenario {
 		sc("eq4-honest-prefix", eq4, -1, nil, "b0", 2, []string{"aa", "aa", "aa", "a"}),
 		sc("w4-byz-fork", w4, 3, nil, "b1", 2, []string{"aa", "af", "a", ""}),
 		sc("dust4-byz", dust4, 0, nil, "b0", 2, []string{"", "a", "aa", "aa"}),
+		sc("dust4-honest", dust4, -1, nil, "b1", 2, []string{"aa", "a", "aa", "a"}),
 	}
 }
 
@@ -191,7 +192,6 @@ func moreScenarios() []*Scenario {
 		sc("w4-honest-fork", w4, -1, nil, "b3", 2, []string{"aa", "a", "f", "aa"}),
 		sc("eq3-honest", []int64{1, 1, 1}, -1, nil, "b0", 2, []string{"aa", "a", "f"}),
 		sc("eq4-byz-2inst", eq4, 3, nil, "b1", 2, []string{"aa", "a", "aa", ""}, []string{"a", "f", "a", ""}),
-		sc("dust4-honest", dust4, -1, nil, "b1", 2, []string{"aa", "a", "aa", "a"}),
 	}
 }
 
@@ -252,6 +252,10 @@ func policyPlans(thorough bool) []policyPlan {
 		{hon4split, Policy{Kind: "lag", Lagger: 0, FlushRound: 2, LIFO: false}, false, false},
 		{hon4pref, Policy{Kind: "lag", Lagger: 2, FlushRound: 1, LIFO: true}, false, false},
 		{w5lag, Policy{Kind: "lag", Lagger: 3, FlushRound: 1, LIFO: true}, true, false},
+		// a member that starts the instance after the others have decided without it: everything sent (and whatever the
+		// Byzantine member adds) is waiting in its queue when it starts
+		{w5lag, Policy{Kind: "latestart", Lagger: 3}, true, false},
+		{hon4pref, Policy{Kind: "latestart", Lagger: 1, FlushRound: 1}, false, false},
 		{triBound, Policy{Kind: "partition", Groups: [][]int{{0}, {1}}, Echo: true, HealAfter: 0}, true, false},
 		{eq4part, Policy{Kind: "partition", Groups: [][]int{{0}, {1, 2}}, Echo: true, HealAfter: 120}, true, false},
 	}
